@@ -36,6 +36,7 @@ func init() {
 			ruleParserAttempts(r, []string{"JSONExtractor", "LogfmtExtractor", "UnpackExtractor", "RegexpExtractor", "PatternExtractor"})
 			ruleUnpackValidationScope(r)
 			ruleJSONPathStateFresh(r)
+			ruleRegexpGroupNumbering(r)
 		},
 	})
 }
